@@ -204,6 +204,34 @@ theorem c17_rng_partial (C : Consts) (s : Shared) (reqs : List Req) (tys : List 
   · have := h.2.2 i t hi ht
     rwa [advance_ge hd] at this
 
+/-- **Random source under a lock: no draw is handed out twice.** Any number of resolver calls whose
+draw is one atomic step (the repaired `rng` access), next to any number of server requests and
+adapter look-ups: after EVERY schedule the draws held by different requests are pairwise distinct
+and all lie below the generator position — no update is lost. -/
+theorem c17_rng_locked_draws_distinct (C : Consts) (s : Shared) (nResolvers : Nat) (reqs : List Req)
+    (tys : List Nat) (sched : Schedule) :
+    DrawsOk
+      (run (mkSys s (List.replicate nResolvers (resolveProg true) ++ (reqs.map (serveProg C true) ++ tys.map loadProg))) sched).shared
+      (run (mkSys s (List.replicate nResolvers (resolveProg true) ++ (reqs.map (serveProg C true) ++ tys.map loadProg))) sched).threads := by
+  apply run_drawsOk
+  · intro t ht a ha
+    have hp := (mem_mkSys (s := s) ht).2
+    rcases List.mem_append.mp hp with hp | hp
+    · rw [List.eq_of_mem_replicate hp] at ha
+      exact resolveProg_locked_drawOrInert a ha
+    · rcases List.mem_append.mp hp with hp | hp
+      · obtain ⟨q, _, hq⟩ := List.mem_map.mp hp
+        exact serveProg_fixed_drawOrInert C q a (hq ▸ ha)
+      · obtain ⟨ty, _, hq⟩ := List.mem_map.mp hp
+        exact loadProg_drawOrInert ty a (hq ▸ ha)
+  · constructor
+    · intro i t d hi hd
+      have := (mem_mkSys (s := s) (List.mem_of_getElem? hi)).1
+      rw [this] at hd; cases hd
+    · intro i j ti tj d _ hi _ hd
+      have := (mem_mkSys (s := s) (List.mem_of_getElem? hi)).1
+      rw [this] at hd; cases hd
+
 /-! ## Non-vacuity -/
 
 /-- a server with two resources, an error object shared between requests (no message, so the
@@ -258,6 +286,12 @@ example :
 /-- with the draw under a lock the same schedule shape is serial-equivalent -/
 example : SerialEquivalent2 (mkSys ⟨[], [], [], [(7, 1), (8, 1)], 0⟩ [resolveProg true, resolveProg true])
     [0, 1, 1, 0, 1, 0] := by
+  decide
+
+/-- three locked resolver calls interleaved step by step: draws 0, 1, 2 — each handed out once -/
+example :
+    (outcomes (run (mkSys ⟨[], [], [], [(7, 1), (8, 1)], 0⟩ (List.replicate 3 (resolveProg true)))
+      [0, 1, 2, 2, 1, 0, 0, 1, 2])).map (·.draw) = [some 2, some 1, some 0] := by
   decide
 
 /-- the one-resolver theorem covers a run in which the resolver's two halves are separated by other
